@@ -19,6 +19,7 @@ import (
 	"fmt"
 	"os"
 	"os/exec"
+	"os/signal"
 	"path/filepath"
 	"regexp"
 	"runtime"
@@ -44,6 +45,14 @@ var repoDir = func() string {
 
 // evidenceDir is /verif/evidence; VERIF_EVIDENCE_DIR redirects it for experiments on deliberately broken
 // copies of go-cty (tools/run_seeded.sh), so that they never overwrite the evidence of the real tree.
+// replaysDir is /verif/replays; VERIF_REPLAYS_DIR redirects it for the same experiments.
+func replaysDir() string {
+	if d := os.Getenv("VERIF_REPLAYS_DIR"); d != "" {
+		return d
+	}
+	return filepath.Join(verifDir, "replays")
+}
+
 func evidenceDir() string {
 	if d := os.Getenv("VERIF_EVIDENCE_DIR"); d != "" {
 		return d
@@ -162,9 +171,21 @@ type scratch struct {
 }
 
 func (s *scratch) cleanup() {
-	if s != nil && s.dir != "" {
+	if s != nil && s.dir != "" && os.Getenv("VERIF_KEEP_SCRATCH") == "" {
 		os.RemoveAll(s.dir)
 	}
+}
+
+// removeOnSignal removes the scratch directory when the driver is interrupted or terminated (a stopped
+// background sweep must not leave a copy of go-cty and its build output behind). Exit 2: nothing was decided.
+func removeOnSignal(s *scratch) {
+	ch := make(chan os.Signal, 1)
+	signal.Notify(ch, syscall.SIGINT, syscall.SIGTERM, syscall.SIGHUP)
+	go func() {
+		<-ch
+		s.cleanup()
+		os.Exit(2)
+	}()
 }
 
 func prepare(race bool) (*scratch, error) {
@@ -177,6 +198,7 @@ func prepare(race bool) (*scratch, error) {
 		return nil, err
 	}
 	s := &scratch{dir: dir}
+	removeOnSignal(s)
 	repo := filepath.Join(dir, "repo")
 	if out, err := run("/", goEnv(), "rsync", "-a", "--exclude", ".git", repoDir+"/", repo+"/"); err != nil {
 		return s, fmt.Errorf("rsync: %v: %s", err, out)
@@ -327,6 +349,7 @@ type violRec struct {
 }
 
 type procFailure struct {
+	from   uint64 // first run index of the worker process that died (its history: from..index)
 	index  uint64
 	sim    string
 	exit   int
@@ -528,7 +551,7 @@ func runWorker(s *scratch, cfg *propCfg, prop, tier string, seed, from, n uint64
 		}
 		out := filepath.Join(s.dir, fmt.Sprintf("out-%d-%d.jsonl", wid, from))
 		args := []string{"run", "-prop", prop, "-seed", fmt.Sprint(seed), "-from", fmt.Sprint(from), "-n", fmt.Sprint(n), "-tier", tier,
-			"-out", out, "-replays", filepath.Join(verifDir, "replays"), "-budget", left.String()}
+			"-out", out, "-replays", replaysDir(), "-budget", left.String()}
 		cmd := exec.Command(s.worker, args...)
 		cmd.Env = workerEnv(cfg)
 		var stderr bytes.Buffer
@@ -588,7 +611,7 @@ func runWorker(s *scratch, cfg *propCfg, prop, tier string, seed, from, n uint64
 		if len(se) > 6000 {
 			se = se[:6000]
 		}
-		res.procFail = append(res.procFail, procFailure{index: uint64(open), sim: sim, exit: code, stderr: se})
+		res.procFail = append(res.procFail, procFailure{index: uint64(open), from: from, sim: sim, exit: code, stderr: se})
 		adv := uint64(open) + 1 - from
 		from += adv
 		n -= adv
@@ -659,7 +682,7 @@ func cmdCheck(args []string) {
 	}
 	fmt.Printf("verif: property=%s tier=%s VERIF_SEED=%d workers=%d\n", prop, tier, seed, workers)
 	t0 := time.Now()
-	os.MkdirAll(filepath.Join(verifDir, "replays"), 0o755)
+	os.MkdirAll(replaysDir(), 0o755)
 	os.MkdirAll(evidenceDir(), 0o755)
 	ks, err := loadKnown()
 	if err != nil {
@@ -735,6 +758,7 @@ func cmdCheck(args []string) {
 	progress("%d in-process violations, %d process-level failures, %d suspects, %d timed-out runs to examine", len(agg.viols), len(agg.procFail), len(agg.suspects), agg.timeouts)
 	sort.Slice(agg.procFail, func(i, j int) bool { return agg.procFail[i].index < agg.procFail[j].index })
 	confirmedPF := 0
+	var unreproduced []procFailure
 	for _, pf := range agg.procFail {
 		if confirmedPF >= 3 || time.Now().After(confirmDeadline) {
 			// enough: each confirmation is minimised across fresh processes, which is slow; the rest
@@ -746,9 +770,20 @@ func cmdCheck(args []string) {
 			agg.viols = append(agg.viols, v)
 			confirmedPF++
 		} else {
-			s.cleanup()
-			die(2, "worker died (exit %d) at run %d but the failure did not reproduce in a fresh process:\n%s", pf.exit, pf.index, pf.stderr)
+			unreproduced = append(unreproduced, pf)
+			if len(unreproduced) >= 4 && confirmedPF == 0 {
+				break
+			}
 		}
+	}
+	if len(unreproduced) > 0 && confirmedPF == 0 {
+		// nothing that killed a worker can be shown again: the machinery cannot decide, and says so
+		pf := unreproduced[0]
+		s.cleanup()
+		die(2, "%d worker deaths (first: exit %d at run %d) reproduced neither alone nor with their process history in a fresh process:\n%s", len(unreproduced), pf.exit, pf.index, pf.stderr)
+	}
+	if len(unreproduced) > 0 {
+		fmt.Printf("NOTE: %d worker deaths did not reproduce in a fresh process and are not reported (others of the same batch did)\n", len(unreproduced))
 	}
 	// suspects: violations that did not reproduce inside the worker that found them; a fresh process decides
 	sort.Slice(agg.suspects, func(i, j int) bool { return agg.suspects[i].rp.Index < agg.suspects[j].rp.Index })
@@ -830,6 +865,17 @@ func cmdCheck(args []string) {
 		fmt.Printf("  class=%s signature=%s sim=%s index=%d tape %d->%d draws\n  %s\n", v.rp.Class, v.rp.Signature, v.rp.Sim, v.rp.Index, v.rp.OrigLen, v.rp.MinLen,
 			strings.ReplaceAll(v.rp.Detail, "\n", "\n  "))
 	}
+	// replay files of violations that are not reported (further witnesses of a reported signature) are removed:
+	// only what a printed line names stays on disk
+	reported := map[string]bool{}
+	for _, v := range confirmed {
+		reported[v.file] = true
+	}
+	for _, v := range agg.viols {
+		if v.file != "" && !reported[v.file] {
+			os.Remove(v.file)
+		}
+	}
 	if agg.timeouts > 0 {
 		fmt.Printf("NOTE: %d runs exceeded the per-run time limit and were skipped (CPU time is not part of this property; indices are in the evidence file)\n", agg.timeouts)
 	}
@@ -864,6 +910,40 @@ func confirmProcFailure(s *scratch, cfg *propCfg, prop, tier string, seed uint64
 		return exitCode(err), se.String()
 	}
 	code, se := runIdx()
+	warmFrom := pf.index
+	if code != pf.exit && pf.from < pf.index {
+		// The run alone does not fail in a fresh process. A process-level failure may need the history of
+		// the process it happened in (the race detector decides on shadow state and on the synchronisation
+		// every earlier execution left behind; a library that keeps state between calls - what C20 forbids -
+		// needs the calls that built it). Run indices are a pure function of the seed, so that history is
+		// reproducible: execute the same runs again, in a fresh process, and require the same death at the
+		// same run; then find the shortest history that still does it.
+		runHist := func(from uint64) (int, int64, string) {
+			out := filepath.Join(s.dir, fmt.Sprintf("confirm-%d-%d.jsonl", from, pf.index))
+			os.Remove(out)
+			cmd := exec.Command(s.worker, "run", "-prop", prop, "-seed", fmt.Sprint(seed), "-from", fmt.Sprint(from), "-n", fmt.Sprint(pf.index-from+1),
+				"-tier", tier, "-out", out, "-dumptape", dump)
+			cmd.Env = workerEnv(cfg)
+			var se bytes.Buffer
+			cmd.Stderr = &se
+			cmd.Stdout = &se
+			err := runTimed(cmd, 400*time.Second)
+			open, _ := readResults(out, &workerResult{})
+			return exitCode(err), open, se.String()
+		}
+		if c2, open, se2 := runHist(pf.from); c2 == pf.exit && open == int64(pf.index) {
+			code, se, warmFrom = c2, se2, pf.from
+			for _, k := range []uint64{1, 2, 4, 8, 16} {
+				if pf.index-k <= pf.from {
+					break
+				}
+				if c3, open3, se3 := runHist(pf.index - k); c3 == pf.exit && open3 == int64(pf.index) {
+					se, warmFrom = se3, pf.index-k
+					break
+				}
+			}
+		}
+	}
 	if code != pf.exit {
 		return nil
 	}
@@ -889,7 +969,7 @@ func confirmProcFailure(s *scratch, cfg *propCfg, prop, tier string, seed uint64
 	min := rp.Tape
 	tests := 0
 	shrinkEnd := time.Now().Add(150 * time.Second)
-	if cfg.procShrink > 0 && try(rp.Tape) {
+	if warmFrom == pf.index && cfg.procShrink > 0 && try(rp.Tape) {
 		min, tests = tape.Shrink(rp.Tape, func(t *tape.Tape) bool { return time.Now().Before(shrinkEnd) && try(t) }, cfg.procShrink)
 	}
 	if len(se) > 6000 {
@@ -904,7 +984,14 @@ func confirmProcFailure(s *scratch, cfg *propCfg, prop, tier string, seed uint64
 	}
 	rp.Extra["process_level"] = fmt.Sprint(code)
 	rp.Extra["check_property"] = prop
-	file := filepath.Join(verifDir, "replays", fmt.Sprintf("%s-%s-%d-%d.json", prop, class, seed, pf.index))
+	if warmFrom != pf.index {
+		// replayed by executing runs warm_from..index of this seed in one fresh process (verif replay does that);
+		// the tape is that of the run that died, unminimised: its failure depends on the executions before it
+		rp.Extra["warm_from"] = fmt.Sprint(warmFrom)
+		rp.Detail = fmt.Sprintf("the worker process died with status %d while executing this run, after runs %d..%d of the same seed in the same process; "+
+			"the run alone does not fail in a fresh process, the same sequence of runs does (reproduced in a fresh process)\n%s", code, warmFrom, pf.index-1, se)
+	}
+	file := filepath.Join(replaysDir(), fmt.Sprintf("%s-%s-%d-%d.json", prop, class, seed, pf.index))
 	if rp.Write(file) != nil {
 		return nil
 	}
@@ -1076,6 +1163,24 @@ func cmdReplay(args []string) {
 	if err != nil {
 		s.cleanup()
 		die(2, "%v", err)
+	}
+	if wf := rp.Extra["warm_from"]; wf != "" {
+		from, _ := strconv.ParseUint(wf, 10, 64)
+		out := filepath.Join(s.dir, "replay-warm.jsonl")
+		cmd := exec.Command(s.worker, "run", "-prop", prop, "-seed", fmt.Sprint(rp.Seed), "-from", fmt.Sprint(from), "-n", fmt.Sprint(rp.Index-from+1),
+			"-tier", rp.Tier, "-out", out)
+		cmd.Env = workerEnv(cfg)
+		cmd.Stdout = os.Stdout
+		cmd.Stderr = os.Stderr
+		code := exitCode(cmd.Run())
+		open, _ := readResults(out, &workerResult{})
+		if fmt.Sprint(code) == rp.Extra["process_level"] && open == int64(rp.Index) {
+			fmt.Printf("VIOLATION property=%s replay=%s\n", rp.Property, args[0])
+			s.cleanup()
+			os.Exit(1)
+		}
+		fmt.Printf("replay: the process-level failure (exit %s at run %d after runs %d..) did not reproduce (exit %d, last open run %d)\n", rp.Extra["process_level"], rp.Index, from, code, open)
+		return
 	}
 	mode := "replay"
 	if rp.Extra["needs_fresh_process"] != "" {
